@@ -420,6 +420,50 @@ fn garbage_disclosures() -> Vec<String> {
     out
 }
 
+/// Validly signed key-binding JWTs whose claims take every value shape (the signature is genuine, so the
+/// verifier gets past it and has to cope with the values): (presentation text, format) pairs.
+fn kb_value_cases() -> Vec<(String, Fmt)> {
+    let mut out = vec![];
+    let mut l = Local::default();
+    let u = json!({"iss": gen::ISS, "exp": gen::EXP, "a": 1});
+    let vals = [json!(0), json!(-1), json!(1.5), json!(9223372036854775807u64), json!(9223372036854775808u64), json!(u64::MAX), json!(1e300), json!(-1e300), json!("s"), json!(""), Value::Null, json!([]), json!({}), json!(true), json!([1]), json!({"a": 1})];
+    for hk in [Hk::Es, Hk::Ed] {
+        let cfg = crate::pipeline::Cfg { fmt: Fmt::Compact, alg: Alg::HS256, decoys: false, hk };
+        let Some(cred) = crate::pipeline::issue_checked(&u, &Strat::Top, &cfg, Default::default(), "C07", &mut l) else { continue };
+        let list = vec![cred.parts.disclosures[0].clone()];
+        let base_parts = Parts { jwt: cred.parts.jwt.clone(), disclosures: list, kb: None };
+        let sd_hash = codec::digest(&base_parts.sd_hash_input());
+        let alg = if hk == Hk::Ed { jsonwebtoken::Algorithm::EdDSA } else { jsonwebtoken::Algorithm::ES256 };
+        let base_pl = json!({"nonce": "nonce", "aud": "aud", "iat": 1700000000u64, "sd_hash": sd_hash});
+        let base_hdr = json!({"alg": hk.alg().unwrap(), "typ": "kb+jwt"});
+        for field in ["iat", "exp", "nbf", "nonce", "aud", "sd_hash", "iss", "sub", "jti", "cnf"] {
+            for v in &vals {
+                let mut pl = base_pl.clone();
+                pl[field] = v.clone();
+                let kb = tokens::sign_json(&base_hdr, &pl, alg, &hk.enc(0).unwrap());
+                for fmt in codec::FMTS {
+                    let mut p = base_parts.clone();
+                    p.kb = Some(kb.clone());
+                    out.push((p.serialize(fmt), fmt));
+                }
+            }
+        }
+        for field in ["typ", "alg", "kid", "crit", "jwk", "x5c", "zip", "cty"] {
+            for v in &vals {
+                let mut hdr = base_hdr.clone();
+                hdr[field] = v.clone();
+                let kb = tokens::sign_json(&hdr, &base_pl, alg, &hk.enc(0).unwrap());
+                for fmt in codec::FMTS {
+                    let mut p = base_parts.clone();
+                    p.kb = Some(kb.clone());
+                    out.push((p.serialize(fmt), fmt));
+                }
+            }
+        }
+    }
+    out
+}
+
 struct Groups {
     alpha: Vec<String>,
     max_len: usize,
@@ -431,6 +475,7 @@ struct Groups {
     issuer: Vec<(Value, Strat)>,
     deep: Vec<(String, String, Fmt)>,
     garbage_disc: Vec<String>,
+    kb_values: Vec<(String, Fmt)>,
     random: usize,
 }
 fn groups(tier: &str) -> Groups {
@@ -450,6 +495,7 @@ fn groups(tier: &str) -> Groups {
         issuer: issuer_inputs(),
         deep: deep_cases(),
         garbage_disc: garbage_disclosures(),
+        kb_values: kb_value_cases(),
         random: if quick { 100_000 } else { 1_000_000 },
     }
 }
@@ -490,7 +536,7 @@ pub fn worker(args: &[String]) {
             run_one(&g, "issuer", i, &mut l);
         }
     }
-    for (name, len) in [("json_form", g.json_forms.len()), ("subst", g.subst.len()), ("c08", g.c08.len()), ("garbage_disc", g.garbage_disc.len())] {
+    for (name, len) in [("json_form", g.json_forms.len()), ("subst", g.subst.len()), ("c08", g.c08.len()), ("garbage_disc", g.garbage_disc.len()), ("kb_values", g.kb_values.len())] {
         for i in 0..len {
             if i % n == shard {
                 if (i / n) % 256 == 0 {
@@ -592,6 +638,11 @@ fn run_one(g: &Groups, group: &str, i: usize, l: &mut Local) {
             run_signed(&c, "c08", l);
             l.nontrivial += 1;
         }
+        "kb_values" => {
+            let (text, fmt) = &g.kb_values[i];
+            op_string(text, *fmt, "kb_values", l);
+            l.nontrivial += 1;
+        }
         "garbage_disc" => {
             let (_, _, _, d, jwt) = valid_token();
             let gd = &g.garbage_disc[i];
@@ -660,6 +711,7 @@ pub fn run(rep: &Report) {
         "issuer_inputs": g.issuer.len(),
         "deep_inputs": g.deep.len(),
         "garbage_disclosures_in_valid_token": g.garbage_disc.len(),
+        "validly_signed_kb_jwts_with_every_value_shape_per_claim": g.kb_values.len(),
         "auxiliary_random_strings(sampling)": g.random}, "worker_processes": n}));
     rep.sample(json!({"group": "compact_seq", "input": nth_sequence(&g.alpha, 4, 12345)}));
     rep.sample(json!({"group": "select", "selection": g.sels[g.sels.len() / 2]}));
